@@ -963,6 +963,11 @@ func (ctx *Context) evaluate() {
 				ctx.Error = errors.New("骰子面数不为正整数")
 				return
 			}
+			if bInt >= maxIntType {
+				// Roll 不支持这个面数(会返回0)
+				ctx.Error = errors.New("骰子面数过大")
+				return
+			}
 			if ok && (diceState.isKeepLH == 1 || diceState.isKeepLH == 3) && diceState.lowNum <= 0 {
 				ctx.Error = errors.New("骰子取低个数不为正整数")
 				return
